@@ -27,6 +27,7 @@ type Obligation struct {
 	Ms      int64   `json:"ms"`
 	Model   string  `json:"-"`
 	Cover   bool    `json:"cover,omitempty"` // must be satisfiable (vacuity guard)
+	localFrom int   // >0: obligation about a loop body; assumptions made before this assertion index are optional
 	Info    map[string]string `json:"info,omitempty"`
 }
 
@@ -37,6 +38,7 @@ type frameItem struct {
 	text     string
 	otype    types.Type // static type of the object written (struct / slice / map), when known
 	flo, fhi int        // constant leaf range inside otype (fhi == 0: whole object)
+	otid     int        // object-kind id for arrays and maps
 }
 
 type State struct {
@@ -103,6 +105,7 @@ type Act struct {
 	mayPanic map[string]bool
 	loopFrameOf map[*ssa.BasicBlock]*loopFrame
 	baseFrames  []loopFrame
+	loopCutPos  map[*ssa.BasicBlock]int
 }
 
 type VC struct {
@@ -128,6 +131,7 @@ type VC struct {
 	obAsserts  map[int]bool // assertions that restate an earlier obligation
 	seenRef    map[string]bool
 	seenRefs   []string
+	seenRefTid map[string]int // static struct type id of references to whole-object structs
 	pure       int // >0 while evaluating a quantifier body
 	rangeIDs   map[*ssa.Range]string
 	closureCtx *ClosureV
@@ -185,8 +189,12 @@ func (vc *VC) finalize() {
 			if types.IsInterface(t) {
 				continue
 			}
-			if sl, ok := t.(*types.Slice); ok {
-				// array objects are registered under their slice type
+			if vc.eng.objKind[id] == "map" {
+				cs = append(cs, fmt.Sprintf("(not (= (typ %s) %d))", pf.ref, id)) // no pointer addresses the inside of a map object
+				continue
+			}
+			if sl, ok := t.(*types.Slice); ok && vc.eng.objKind[id] == "arr" {
+				// array objects: element type from the id's slice type
 				if at, isArr := pf.elem.Underlying().(*types.Array); isArr && types.Identical(at.Elem(), sl.Elem()) {
 					continue
 				}
@@ -536,7 +544,7 @@ func (vc *VC) allocObj(st *State, t types.Type, zero bool) PtrV {
 	st.top = vc.def("top", "Int", fmt.Sprintf("(+ %s 1)", ref))
 	if at, ok := t.Underlying().(*types.Array); ok {
 		// array objects are typed like the backing arrays of slices of their element type
-		vc.assume(st, fmt.Sprintf("(= (typ %s) %d)", ref, vc.tid(types.NewSlice(at.Elem()))))
+		vc.assume(st, fmt.Sprintf("(= (typ %s) %d)", ref, vc.eng.arrTid(at.Elem())))
 	} else {
 		vc.assume(st, fmt.Sprintf("(= (typ %s) %d)", ref, vc.tid(t)))
 	}
@@ -551,11 +559,19 @@ func (vc *VC) allocObj(st *State, t types.Type, zero bool) PtrV {
 	return PtrV{ref, "0"}
 }
 
+// allocMapObj allocates a map object.
+func (vc *VC) allocMapObj(st *State, mt types.Type) PtrV {
+	ref := vc.def("obj", "Int", st.top)
+	st.top = vc.def("top", "Int", fmt.Sprintf("(+ %s 1)", ref))
+	vc.assume(st, fmt.Sprintf("(= (typ %s) %d)", ref, vc.eng.mapTid(mt)))
+	return PtrV{ref, "0"}
+}
+
 // allocArray allocates a backing array object (contents unspecified unless zeroed by caller).
 func (vc *VC) allocArray(st *State, elem types.Type) string {
 	ref := vc.def("arr", "Int", st.top)
 	st.top = vc.def("top", "Int", fmt.Sprintf("(+ %s 1)", ref))
-	vc.assume(st, fmt.Sprintf("(= (typ %s) %d)", ref, vc.tid(types.NewSlice(elem))))
+	vc.assume(st, fmt.Sprintf("(= (typ %s) %d)", ref, vc.eng.arrTid(elem)))
 	return ref
 }
 
@@ -565,6 +581,12 @@ func (vc *VC) wf(st *State, v Val, t types.Type) string {
 	case *types.Pointer:
 		p := v.(PtrV)
 		vc.noteRef(p.ref)
+		if vc.eng.wholeObjectType(u.Elem()) && isAtom(p.ref) {
+			if vc.seenRefTid == nil {
+				vc.seenRefTid = map[string]int{}
+			}
+			vc.seenRefTid[p.ref] = vc.tid(u.Elem())
+		}
 		cs := []string{fmt.Sprintf("(>= %s 0)", p.ref), fmt.Sprintf("(< %s %s)", p.ref, st.top), implies(eq(p.ref, "0"), eq(p.idx, "0")), fmt.Sprintf("(>= %s 0)", p.idx)}
 		if vc.eng.wholeObjectType(u.Elem()) {
 			cs = append(cs, implies(fmt.Sprintf("(> %s 0)", p.ref), and(fmt.Sprintf("(= (typ %s) %d)", p.ref, vc.tid(u.Elem())), eq(p.idx, "0"))))
@@ -578,14 +600,14 @@ func (vc *VC) wf(st *State, v Val, t types.Type) string {
 		s := v.(SliceV)
 		return and(fmt.Sprintf("(>= %s 0)", s.ref), fmt.Sprintf("(< %s %s)", s.ref, st.top), fmt.Sprintf("(>= %s 0)", s.off), fmt.Sprintf("(>= %s 0)", s.ln), fmt.Sprintf("(<= %s %s)", s.ln, s.cp),
 			implies(eq(s.ref, "0"), and(eq(s.cp, "0"), eq(s.off, "0"))),
-			implies(fmt.Sprintf("(> %s 0)", s.ref), fmt.Sprintf("(= (typ %s) %d)", s.ref, vc.tid(types.NewSlice(u.Elem())))))
+			implies(fmt.Sprintf("(> %s 0)", s.ref), fmt.Sprintf("(= (typ %s) %d)", s.ref, vc.eng.arrTid(u.Elem()))))
 	case *types.Interface:
 		i := v.(IfaceV)
 		return and(fmt.Sprintf("(>= %s 0)", i.tag), implies(eq(i.tag, "0"), eq(i.box, "0")))
 	case *types.Map:
 		m := v.(MapV)
 		vc.noteRef(m.ref)
-		return and(fmt.Sprintf("(>= %s 0)", m.ref), fmt.Sprintf("(< %s %s)", m.ref, st.top), implies(fmt.Sprintf("(> %s 0)", m.ref), fmt.Sprintf("(= (typ %s) %d)", m.ref, vc.tid(t.Underlying()))))
+		return and(fmt.Sprintf("(>= %s 0)", m.ref), fmt.Sprintf("(< %s %s)", m.ref, st.top), implies(fmt.Sprintf("(> %s 0)", m.ref), fmt.Sprintf("(= (typ %s) %d)", m.ref, vc.eng.mapTid(t))))
 	case *types.Chan:
 		c := v.(IntV)
 		return and(fmt.Sprintf("(>= %s 0)", c.t), fmt.Sprintf("(< %s %s)", c.t, st.top))
@@ -676,6 +698,17 @@ func (vc *VC) havocAll(st *State, why string) {
 			mem, nmem = st.mr, nmr
 		}
 		vc.assume(st, fmt.Sprintf("(forall ((r Int)) (! (=> (= (typ r) %d) (= (select (select %s r) %d) (select (select %s r) %d))) :pattern ((select %s r))))", im.tid, nmem, im.leaf, mem, im.leaf, nmem))
+		// ground instances for the objects already known by reference
+		refs := vc.seenRefs
+		if len(refs) > 80 {
+			refs = refs[len(refs)-80:]
+		}
+		for _, r := range refs {
+			if vc.seenRefTid[r] != im.tid {
+				continue
+			}
+			vc.assume(st, fmt.Sprintf("(=> (= (typ %s) %d) (= (select (select %s %s) %d) (select (select %s %s) %d)))", r, im.tid, nmem, r, im.leaf, mem, r, im.leaf))
+		}
 	}
 	oldTop := st.top
 	st.mi, st.mr = nmi, nmr
